@@ -954,3 +954,7 @@ Definition abs_event (ev : col_event) : span_event :=
 (* the shape of onSpan the refinement needs: width check first, val[i] only inside the loop over the keys *)
 Definition handler_shape_ok (h : handler_prog) : bool :=
   hp_width_check h && hp_flush_resets h && negb (has_idx (hp_once h)) && has_idx (hp_loop h).
+
+(* package unmarshal is entered from controller/ only: through the ParsingFunction values made by Build (handler side up
+   to parserDoer.Do, then the parser goroutine) and through the functions controllers call directly (handler side) *)
+Definition importers_ok (fs : list string) : bool := forallb (prefix "controller/") fs.
